@@ -45,14 +45,15 @@ def own_path(fx, f):
     return o.path
 
 
-def r61(ctx, fx, T):
+def r61(ctx, fx, T, scope):
     rid = ctx.rule("R6.1", "label USERINT (sources: literal values, evaluated expressions, config integers, SymbolData::Number) must not reach an operand of a "
                    "MIR Assert (overflow of + - * / % neg << >>, division/remainder by zero, bounds) unless a dominating guard on the same value is recognised "
                    "(switch excluding 0 for division) or the site is tabled as bounded")
     seen = {}
     n_all = 0
+    bounds = {}
     for f in sorted(fx.all_fns(), key=lambda f: f.path):
-        if "::tests::" in f.path or "::testing" in f.path:
+        if "::tests::" in f.path or "::testing" in f.path or f.id not in scope:
             continue
         for bi, b in enumerate(f.blocks):
             t = b["term"]
@@ -69,13 +70,29 @@ def r61(ctx, fx, T):
             seen[kk] = seen.get(kk, 0) + 1
             key = "%s|%s#%d" % (f.path, kind, seen[kk])
             guarded = False
+            bd = bounds.get(f.id)
+            if bd is None:
+                bd = bounds[f.id] = taint.Bounds(fx, f)
+            rs = [bd.range_of(o, bi) for o in t["ops"]]
+            if kind.startswith("Overflow(") and kind[9:-1] in ("Add", "Sub", "Mul") and all(r is not None for r in rs):
+                guarded = True      # both operands lie in small constant ranges
+            if kind in ("DivisionByZero", "RemainderByZero", "Overflow(Div)", "Overflow(Rem)"):
+                # divisor = the right operand of the Div/Rem in the target block / the x of `Eq(x, 0)`
+                div = None
+                for s_ in b["stmts"]:
+                    if s_["k"] == "assign" and s_["rv"]["k"] == "binop" and s_["rv"]["op"] == "Eq" and lib.const_int(s_["rv"]["r"]) in (0, -1):
+                        div = s_["rv"]["l"]
+                if div is not None:
+                    r = bd.range_of(div, bi)
+                    if r is not None and r[0] >= 1:
+                        guarded = True
             if kind in ("DivisionByZero", "RemainderByZero"):
                 # the Assert's operand is the dividend; the divisor is the x in `cond = Eq(x, 0)`
                 cl = lib.op_local(t["cond"])
                 for s_ in b["stmts"]:
                     if s_["k"] == "assign" and s_["dst"]["l"] == cl and s_["rv"]["k"] == "binop" and s_["rv"]["op"] == "Eq" and \
                             lib.const_int(s_["rv"]["r"]) == 0:
-                        guarded = taint.guarded_nonzero(f, bi, s_["rv"]["l"])
+                        guarded = guarded or taint.guarded_nonzero(f, bi, s_["rv"]["l"])
             why = [T.explain(f.id, lib.op_place(o)["l"]) for o in tops]
             ctx.inst(rid, key, sample={"fn": f.path, "assert": kind, "line": t.get("line"), "guarded": guarded, "flow": why[:2]})
             if guarded:
@@ -86,7 +103,7 @@ def r61(ctx, fx, T):
             ctx.finding(rid, key, "a value the program text controls reaches `%s` in %s: the assembler panics instead of reporting a diagnostic" % (
                 kind, f.path.rsplit("::", 1)[-1] if not f.path.startswith("<") else f.path), "%s:%s" % (f.file, t.get("line")), flow=why[:3])
     ctx.extra["asserts_scanned"] = n_all
-    ctx.floor(rid, 20, "labelled Assert sinks")
+    ctx.floor(rid, 15, "labelled Assert sinks")
 
 
 ALLOC_SINKS = {  # callee suffix -> index of the size argument
@@ -107,12 +124,13 @@ SAFE_CALLS = {
 }
 
 
-def r62(ctx, fx, T):
+def r62(ctx, fx, T, scope):
     rid = ctx.rule("R6.2", "label USERINT must not reach an allocation size (vec![x; n], Vec::resize/with_capacity, str::repeat), a slice/str/Vec index "
                    "(Index::index, split_at, remove, splice, …) or the end of a Range that drives a `for` loop, unless tabled as bounded")
     seen = {}
+    bounds = {}
     for f in sorted(fx.all_fns(), key=lambda f: f.path):
-        if "::tests::" in f.path or "::testing" in f.path:
+        if "::tests::" in f.path or "::testing" in f.path or f.id not in scope:
             continue
         ranges = set()
         for _, _, s in lib.stmts(f):
@@ -141,6 +159,12 @@ def r62(ctx, fx, T):
             safe = SAFE_CALLS.get(kk)
             if safe and seen[kk] <= safe[0]:
                 continue
+            if what[0] == "alloc":
+                bd = bounds.get(f.id)
+                if bd is None:
+                    bd = bounds[f.id] = taint.Bounds(fx, f)
+                if bd.range_of(t["args"][ALLOC_SINKS[what[1]]], bi) is not None:
+                    continue      # the size lies in a small constant range (dominating range check)
             msg = {"alloc": "the size of an allocation (%s) is controlled by the program text: a huge value aborts the process",
                    "index": "an index/range handed to %s is controlled by the program text: out of range panics",
                    "loop": "the trip count of a `for` over a range (%s) is controlled by the program text with no upper bound: assembly does not terminate in practice"}[what[0]]
@@ -294,8 +318,24 @@ def run(ctx):
     fx = ctx.facts
     T = taint.Taint(fx, "USERINT", source_calls=USERINT_SOURCES, source_fields=USERINT_FIELDS, carrier=taint.INT_CARRIER)
     ctx.extra["taint_userint"] = {"functions_with_labelled_locals": sum(1 for v in T.t.values() if v), "labelled_fields": sorted("%s.%s" % k for k in T.fields)}
-    r61(ctx, fx, T)
-    r62(ctx, fx, T)
+    # scope of C06: parsing, assembling (build and the language server's analysis mode), formatting, listing generation, output
+    cg = lib.CallGraph(fx)
+    roots = []
+    for sfx in ("mos_core::parser::parse", "mos_core::parser::parse_expression", "mos_core::codegen::codegen", "mos_core::formatting::format",
+                "mos_core::io::listing::to_listing", "mos_core::io::vice::to_vice_symbols", "mos_core::io::binary_writer::BinaryWriter::merge_segments",
+                "mos_core::io::binary_writer::BinaryWriter::write_banks", "mos::commands::build::build_command", "mos::commands::format::format_command"):
+        f_ = fx.fn(sfx)
+        if f_ is None:
+            ctx.fail_closed("R6.1", "entry point %s not found" % sfx)
+        else:
+            roots.append(f_.id)
+    scope = cg.reach(roots)
+    # the test runner, the debugger and the language-server request handlers have their own properties (C18, C19, C14); they are only reachable
+    # here through `dyn FunctionCallback` (ram()/ram16() are not registered by `mos build`)
+    scope = {i for i in scope if not fx.fns[i].path.lstrip("<").startswith(("mos::debugger", "mos::test_runner", "mos::memory_accessor", "mos::lsp"))}
+    ctx.extra["scope_functions"] = len(scope)
+    r61(ctx, fx, T, scope)
+    r62(ctx, fx, T, scope)
     r63(ctx, fx)
     r64(ctx, fx)
     r65(ctx, fx)
